@@ -1263,13 +1263,12 @@ func (f *fragment) maxUnsigned(filter *Row, bitDepth uint) (max int64, count uin
 // if filter is nil, it returns fragment.minRowID, 1
 // if fragment has no rows, it returns 0, 0
 func (f *fragment) minRow(filter *Row) (uint64, uint64) {
-	minRowID, hasRowID := f.minRowID()
+	minRowID, maxRowID, hasRowID := f.rowIDRange()
 	if hasRowID {
 		if filter == nil {
 			return minRowID, 1
 		}
 		// iterate from min row ID and return the first that intersects with filter.
-		maxRowID := f.highestRowID()
 		for i := minRowID; i <= maxRowID; i++ {
 			row := f.row(i).Intersect(filter)
 			count := row.Count()
@@ -1288,13 +1287,21 @@ func (f *fragment) highestRowID() uint64 {
 	return f.storage.Max() / ShardWidth
 }
 
+// rowIDRange reads the lowest and highest row id under the fragment lock
+// (every mutation and the snapshot worker modify the storage tree).
+func (f *fragment) rowIDRange() (minRowID, maxRowID uint64, hasRowID bool) {
+	f.mu.Lock()
+	defer f.mu.Unlock()
+	minRowID, hasRowID = f.minRowID()
+	return minRowID, f.highestRowID(), hasRowID
+}
+
 // maxRow returns maxRowID of the rows in the filter and its count.
 // if filter is nil, it returns the highest row that holds a bit, 1
 // if fragment has no rows, it returns 0, 0
 func (f *fragment) maxRow(filter *Row) (uint64, uint64) {
-	minRowID, hasRowID := f.minRowID()
+	minRowID, maxRowID, hasRowID := f.rowIDRange()
 	if hasRowID {
-		maxRowID := f.highestRowID()
 		if filter == nil {
 			return maxRowID, 1
 		}
